@@ -297,10 +297,20 @@ class RefStream:
             finally:
                 self.exc = saved
             if out is BLOCKED:
-                return self._exc()
+                # not (yet) completable on the data path: the caller may still apply a re-entrant refill and ask
+                # again; if it stays blocked the contract outcome is the exception (see conclude())
+                call.released = True
+                call.exc_after_release = True
+                return BLOCKED
             self.rule("linearization:exception-after-wake:data-path")
             return out
         return self._advance(call, obs)
+
+    def conclude(self, call: Call, out, obs):
+        """final expected outcome of a step that was observed to have ended (obs is not None)"""
+        if out is BLOCKED and self.exc is not None and obs is not None:
+            return self._exc()
+        return out
 
     def _advance(self, call: Call, obs=None):
         kind = call.kind
